@@ -46,7 +46,7 @@ fn checks_for(property: &str, tier: Tier) -> Vec<Box<dyn Check>> {
         | "C06" => c06::checks(tier),
         | "C12" => vec![Box::new(c12::Fmt::new(c12::Mode::Meaning, tier))],
         | "C13" => vec![Box::new(c12::Fmt::new(c12::Mode::Text, tier))],
-        | "C14" => vec![Box::new(c12::Fmt::new(c12::Mode::Idempotence, tier))],
+        | "C14" => vec![Box::new(c12::Fmt::new(c12::Mode::Idempotence, tier)), Box::new(c12::FmtCli::new(tier))],
         | "C15" => c15::checks(tier),
         | "C16" => c16::checks(tier),
         | "C18" => vec![Box::new(c18::Lowered::new(c18::Mode::Lowering, tier))],
